@@ -147,6 +147,11 @@ def main():
     if new_failures:
         violations = len(new_failures)
         fl = new_failures[0]
+        if hasattr(mod, 'shrink'):
+            try:
+                fl = mod.shrink(fl)
+            except Exception:
+                pass
         path = vlib.write_replay(prop, {'property': prop, 'failure': fl, 'broken_obligations': broken,
                                         'disagreements': disagreements[:5]})
         print(f'VIOLATION property={prop} replay={path}')
